@@ -20,17 +20,17 @@ META = {
     "transitions = (state, slot, allele) entries of the Gibbs/MH vectors and every (scan order, choice sequence) path of the "
     "compound step; non-trivial = ploidy >= 2 and positive posterior",
     "bound": {
-        "quick": "H<=4, P<=4; freqs in {None, flat, skewed, zero-first, zero-last}; also haplotype lists holding one sequence twice (H in {3,4}); F in {0,0.004,0.2,0.7}; compound matrix for P<=3,H<=3 (+P=4,H=2)",
+        "quick": "H<=4, P<=4; freqs in {None, flat, skewed, zero-first, zero-last}; also haplotype lists holding one sequence twice (H in {3,4}); F in {0,1e-6,0.0005,0.004,0.2,0.7}; ploidy 12-13 with one likelihood cache shared over all states (H<=3); compound matrix for P<=3,H<=3 (+P=4,H=2)",
         "thorough": "H<=5, P<=6 (Gibbs/MH); compound matrix up to (H,P) = (5,4), (3,5), (2,6)",
     },
     "assumptions": [
         "Monte-Carlo error size between call and call-exact is not measured; stationarity + positive edges are",
-        "jitted mcmc_sampler traces are checked to follow positive-probability edges of the model matrix with exact llk",
+        "tolerances: Gibbs 1e-9, MH flow 1e-8, each widened by 16-32 ulp x |lgamma((1-F)/F + P)| because the code evaluates the prior as a difference of log-gammas (4.7e-8 / 9.4e-8 at F = 1e-6)", "jitted mcmc_sampler traces are checked to follow positive-probability edges of the model matrix with exact llk",
     ],
     "trusted_base": ["vmc/refmodel.py posterior", "numba py_func == dispatcher source (compound_step)"],
 }
 
-FS = (0.0, 0.004, 0.2, 0.7)
+FS = (0.0, 1e-6, 0.0005, 0.004, 0.2, 0.7)
 
 
 def warm(tier):
@@ -86,6 +86,9 @@ def plan(tier, seed):
                     jobs.append(("compound", H, P, fname, F, st, seed, math.factorial(P) * H**P * math.comb(H + P - 1, P)))
     for H, P in ((3, 2), (4, 3), (4, 4)):
         jobs.append(("reuse", H, P, seed, 5000))
+    for H, P in ((2, 12), (3, 12), (2, 13), (3, 13)):
+        for fname in ("none", "skew"):
+            jobs.append(("slotcache", H, P, fname, 0.1, seed, math.comb(H + P - 1, P) * P * H * 4))
     jobs.append(("orch", seed, 100))
     for part in (("asm", 0), ("asm", 1), ("hand", 0), ("hand", 1)):
         jobs.append(("cliflow", seed, part, 10 ** 7))
@@ -94,7 +97,70 @@ def plan(tier, seed):
 
 
 def run_job(job):
-    return {"slot": job_slot, "compound": job_compound, "reuse": job_reuse, "orch": job_orch, "cliflow": job_cliflow}[job[0]](job)
+    return {"slot": job_slot, "compound": job_compound, "reuse": job_reuse, "orch": job_orch, "cliflow": job_cliflow, "slotcache": job_slotcache}[job[0]](job)
+
+
+def job_slotcache(job):
+    """high ploidy (genotype indices beyond the binomial lookup table) with ONE likelihood cache shared by every state and slot, as the sampler shares it
+    over a run: every Gibbs / MH vector must still be the exact conditional / satisfy detailed balance (a colliding or stale cache key shows here)"""
+    import numba
+    from mchap.calling.mcmc import gibbs_options, mh_options
+
+    _, H, P, fname, F, seed, _ = job
+    inst = CallInstance(H, P, fname, F, seed)
+    post = inst.post()
+    r = Result()
+    payload = {"kind": "job", "job": job}
+    tag = inst.name() + "|shared-cache"
+    ll, lpv, pv, pv2 = np.zeros(H), np.zeros(H), np.zeros(H), np.zeros(H)
+    cache = numba.typed.Dict.empty(numba.types.int64, numba.types.float64)
+    cache[-1] = np.nan
+    for rnd in range(2):  # second round: every entry is now served from the cache
+        for g in inst.gens:
+            if post[g] == 0:
+                continue
+            r.states += 1
+            r.nontrivial += 1
+            for perm in (g, tuple(reversed(g))):
+                ga = np.array(perm)
+                for k in range(P):
+                    gibbs_options(ga, k, inst.haps, inst.R, inst.C, F, ll, lpv, pv, inst.farr, cache)
+                    r.evaluations += 1
+                    r.transitions += H
+                    w = []
+                    for a in range(H):
+                        g2 = list(perm)
+                        g2[k] = a
+                        ms = tuple(sorted(g2))
+                        w.append(post[ms] / ref.perms(ms))
+                    z = sum(w)
+                    w = [x / z for x in w]
+                    dev = max(abs(pv[a] - w[a]) for a in range(H))
+                    r.maxi("gibbs_shared_cache_abs_dev", dev)
+                    if dev > 1e-9:
+                        r.violation("gibbs-cache|%s|round=%d" % (tag, rnd), "state %r slot %d: Gibbs vector %r != exact full conditional %r" % (perm, k, pv.tolist(), w), payload)
+                    for a in range(H):
+                        g2 = list(perm)
+                        g2[k] = a
+                        if abs(ll[a] - inst.llk(g2)) > 1e-9 * max(1, abs(ll[a])):
+                            r.violation("gibbs-cache-llk|%s|round=%d" % (tag, rnd), "state %r slot %d allele %d: likelihood %.12g, reference %.12g" % (perm, k, a, ll[a], inst.llk(g2)), payload)
+                    mh_options(ga, k, inst.haps, inst.R, inst.C, F, ll, lpv, pv, inst.farr, cache)
+                    cur = perm[k]
+                    for a in range(H):
+                        g2 = list(perm)
+                        g2[k] = a
+                        ms = tuple(sorted(g2))
+                        if a == cur or post[ms] == 0:
+                            continue
+                        mh_options(np.array(g2), k, inst.haps, inst.R, inst.C, F, ll, lpv, pv2, inst.farr, cache)
+                        f1 = post[g] / ref.perms(g) * pv[a]
+                        f2 = post[ms] / ref.perms(ms) * pv2[cur]
+                        d = abs(f1 - f2) / max(f1, f2) if max(f1, f2) > 0 else 0.0
+                        if d > 1e-8:
+                            r.violation("mh-cache-db|%s|round=%d" % (tag, rnd), "state %r slot %d -> allele %d: flow %.12g vs %.12g" % (perm, k, a, f1, f2), payload)
+                    r.outcome((tag, perm, k, [round(float(x), 9) for x in pv]))
+    r.sample({"instance": tag, "genotypes": len(inst.gens), "cache_entries": len(cache)}, cap=1)
+    return r
 
 
 def job_cliflow(job):
@@ -167,6 +233,9 @@ def job_slot(job):
     pv = np.zeros(H)
     pv2 = np.zeros(H)
     A = range(H)
+    # the MH ratio is a difference of log-gamma terms at dispersion (1-F)/F: for tiny F these are ~1e7 and cancel, costing ~1e-9 of relative accuracy
+    mh_tol = 1e-8 + (0.0 if F <= 0 else 32 * 2.3e-16 * abs(math.lgamma((1 - F) / F + P)))
+    gibbs_tol = 1e-9 + (0.0 if F <= 0 else 16 * 2.3e-16 * abs(math.lgamma((1 - F) / F + P)))
     for g in inst.gens:
         r.states += 1
         if post[g] == 0:
@@ -194,7 +263,7 @@ def job_slot(job):
                 w = [x / z for x in w]
                 dev = max(abs(pv[a] - w[a]) for a in A)
                 r.maxi("gibbs_abs_dev", dev)
-                if dev > 1e-9 or any((w[a] == 0) != (pv[a] == 0) for a in A):
+                if dev > gibbs_tol or any((w[a] == 0) != (pv[a] == 0) for a in A):
                     r.violation("gibbs|%s|g=%s|k=%d" % (tag, perm, k),
                                 "Gibbs vector %r != exact full conditional %r" % (pv.tolist(), w), payload)
                 # each llks_array entry is the llk of that option
@@ -225,7 +294,7 @@ def job_slot(job):
                     f2 = post[ms] / ref.perms(ms) * pv2[cur]
                     d = abs(f1 - f2) / max(f1, f2) if max(f1, f2) > 0 else 0.0
                     r.maxi("mh_db_rel_dev", d)
-                    if d > 1e-8:
+                    if d > mh_tol:
                         r.violation("mh-db|%s|g=%s|k=%d|a=%d" % (tag, perm, k, a),
                                     "detailed balance violated: flow %.12g vs %.12g" % (f1, f2), payload)
     r.sample({"instance": tag, "genotypes": len(inst.gens), "posterior_head": [(g, post[g]) for g in inst.gens[:3]]}, cap=1)
